@@ -87,11 +87,48 @@ func (m *C18) AfterMsg(w *eng.World, st *eng.MsgStep) {
 			off = &msg.Fee[0]
 		}
 		m.checkCharge(w, st, "basket.Create", a, basketFeeOf(st.Pre), off)
+	}
+	// exact effect of configuration messages: what governance set is what is in force
+	switch msg := st.Msg.(type) {
+	case *basetypes.MsgUpdateClassFee:
+		m.checkFeeEffect(w, "UpdateClassFee", msg.Fee, classFeeOf(st.Post))
+	case *baskettypes.MsgUpdateBasketFee:
+		m.checkFeeEffect(w, "UpdateBasketFee", msg.Fee, basketFeeOf(st.Post))
+	case *markettypes.MsgGovSetFeeParams:
+		if len(st.Post.FeeParams) == 0 || st.Post.FeeParams[0].BuyerPercentageFee != msg.Fees.BuyerPercentageFee || st.Post.FeeParams[0].SellerPercentageFee != msg.Fees.SellerPercentageFee {
+			w.Violation("C18", "config-effect/fee-params", "GovSetFeeParams(%v) accepted but the stored fee params are %v", msg.Fees, st.Post.FeeParams)
+		}
+	case *markettypes.MsgAddAllowedDenom:
+		found := false
+		for _, d := range st.Post.AllowedDenoms {
+			found = found || d.BankDenom == msg.BankDenom
+		}
+		if !found {
+			w.Violation("C18", "config-effect/allowed-denom", "AddAllowedDenom(%s) accepted but the denom is not on the list", msg.BankDenom)
+		}
+	case *markettypes.MsgRemoveAllowedDenom:
+		for _, d := range st.Post.AllowedDenoms {
+			if d.BankDenom == msg.Denom {
+				w.Violation("C18", "config-effect/allowed-denom", "RemoveAllowedDenom(%s) accepted but the denom is still on the list", msg.Denom)
+			}
+		}
+	}
+	switch st.Msg.(type) {
 	case *basetypes.MsgUpdateClassFee, *baskettypes.MsgUpdateBasketFee, *markettypes.MsgGovSetFeeParams,
 		*basetypes.MsgSetClassCreatorAllowlist, *basetypes.MsgAddClassCreator, *basetypes.MsgRemoveClassCreator,
 		*markettypes.MsgAddAllowedDenom, *markettypes.MsgRemoveAllowedDenom, *basetypes.MsgAddCreditType,
 		*basetypes.MsgAddAllowedBridgeChain, *basetypes.MsgRemoveAllowedBridgeChain:
 		m.canaries(w, "after "+st.Kind)
+	}
+}
+
+// checkFeeEffect: after an accepted fee update the fee in force is the message's fee
+// (nil and zero both mean "no fee").
+func (m *C18) checkFeeEffect(w *eng.World, what string, want *sdk.Coin, got *sdk.Coin) {
+	wantNone := want == nil || want.Amount.IsNil() || want.Amount.IsZero()
+	gotNone := got == nil || got.Amount.IsZero()
+	if wantNone != gotNone || (!wantNone && (want.Denom != got.Denom || !want.Amount.Equal(got.Amount))) {
+		w.Violation("C18", "config-effect/"+what, "%s(%v) accepted but the fee in force is %v", what, want, got)
 	}
 }
 
